@@ -31,6 +31,7 @@ type Engine struct {
 	locationType types.Type
 	thorough     bool
 	noMerge      bool
+	maxSecs      float64
 	loadSecs     float64
 }
 
@@ -153,7 +154,7 @@ func Load(overlay map[string][]byte, patterns []string, tags string) (*Engine, e
 		return nil, fmt.Errorf("%d package load errors", nerr)
 	}
 	prog, _ := ssautil.AllPackages(pkgs, ssa.InstantiateGenerics)
-	e := &Engine{prog: prog, pkgs: map[string]*ssa.Package{}, loopBound: 128, stepBound: 4000000, maxPaths: 200000, workers: 16, hostTable: map[string]string{}}
+	e := &Engine{prog: prog, pkgs: map[string]*ssa.Package{}, loopBound: 128, stepBound: 4000000, maxPaths: 200000, workers: 16, hostTable: map[string]string{}, maxSecs: 1500}
 	for _, sp := range prog.AllPackages() {
 		e.pkgs[sp.Pkg.Path()] = sp
 	}
@@ -297,6 +298,7 @@ func (e *Engine) Explore(fn *ssa.Function, seed int64) *HarnessResult {
 	active := 0
 	witnesses := 0
 	inconc := map[string]bool{}
+	classKept := map[string]int{}
 	stop := false
 	var wg sync.WaitGroup
 	nw := e.workers
@@ -371,7 +373,9 @@ func (e *Engine) Explore(fn *ssa.Function, seed int64) *HarnessResult {
 						continue
 					}
 					res.AssertIDs[f.AssertID]++
-					if len(res.Failures) < 50 {
+					ck := f.AssertID + "|" + strings.Join(f.Findings, ",")
+					if classKept[ck] < 3 {
+						classKept[ck]++
 						res.Failures = append(res.Failures, f)
 					}
 				}
@@ -392,6 +396,13 @@ func (e *Engine) Explore(fn *ssa.Function, seed int64) *HarnessResult {
 				if res.Paths >= e.maxPaths {
 					inconc[fmt.Sprintf("path budget %d exhausted", e.maxPaths)] = true
 					stop = true
+				}
+				if e.maxSecs > 0 && time.Since(t0).Seconds() > e.maxSecs {
+					inconc[fmt.Sprintf("time budget %.0fs exhausted after %d paths", e.maxSecs, res.Paths)] = true
+					stop = true
+				}
+				if os.Getenv("GOSYM_PROGRESS") != "" && res.Paths%2000 == 0 {
+					fmt.Fprintf(os.Stderr, "  .. %s paths=%d queue=%d t=%.0fs\n", fn.Name(), res.Paths, len(queue), time.Since(t0).Seconds())
 				}
 				mu.Unlock()
 				cond.Broadcast()
